@@ -108,7 +108,7 @@ def _invariants(ex, c):
         if isinstance(fty, ListOf) and fk in c.old.heap:
             r = z3.Const('ln_' + fk, Ref(fk.split('.')[0]).sort())
             out.append(QHyp([r], fty.len(c.old.heap[fk][r]) >= 0, 'len>=0'))
-    if 'Node.kids' in c.old.heap:
+    if 'Node.kids' in c.old.heap and not getattr(ex.k, 'no_reach', False):
         out += reach_axioms(c.old.heap['Node.kids'])
     for f in getattr(ex.k, 'assumes', []) or []:
         out += list(f(c))
